@@ -12,6 +12,7 @@ from ..core    import Result, digest
 from ..harness import rp, rps, rpc, make_tmgr, make_task
 
 ID     = 'C06'
+from ..harness import FINAL_STATES
 LEVEL  = 'exploration'
 MANIFEST = {
     'technique': 'runtime monitoring: reference state-model monitor + icontract '
@@ -57,7 +58,7 @@ class Model(object):
         if uid not in self.state:
             return []
         cur = self.state[uid]
-        if cur in rps.FINAL:
+        if cur in FINAL_STATES:
             # final is sticky (CANCELED -> DONE correction is *allowed*, see
             # check below, but not required)
             return []
@@ -96,7 +97,7 @@ def _install_contract(res):
             if vals != exp:
                 ok = False
         elif new != current and not (current == rps.CANCELED
-                                     and new in rps.FINAL):
+                                     and new in FINAL_STATES):
             ok = False
         if not ok:
             res.violation('progress-contract',
@@ -168,7 +169,7 @@ def gen_history(rng):
                 batch.append([u, st, 'full'])
                 continue
             else:  # contradictory final: any final other than the first one
-                st = rng.choice(rps.FINAL)
+                st = rng.choice(FINAL_STATES)
                 if u in final:
                     anomalies += 1
                 final.setdefault(u, st)
@@ -180,7 +181,7 @@ def gen_history(rng):
                 if u in final and final[u] != st:
                     anomalies += 1
                 final.setdefault(u, st)
-            batch.append([u, st, 'full' if st in rps.FINAL
+            batch.append([u, st, 'full' if st in FINAL_STATES
                                  else rng.choice(['partial', 'full'])])
         batches.append(batch)
 
@@ -332,7 +333,7 @@ def run_history(case, res):
             #     single steps, final is sticky
             for s in got[u]:
                 prev = announced[u][-1] if announced[u] else rps.NEW
-                if prev in rps.FINAL and not (prev == rps.CANCELED
+                if prev in FINAL_STATES and not (prev == rps.CANCELED
                                               and s == rps.DONE):
                     res.violation('callback-after-final',
                                   '%s: %s announced after %s' % (u, s, prev),
@@ -348,7 +349,7 @@ def run_history(case, res):
                     not (finals[u] == rps.CANCELED and t.state == rps.DONE):
                 res.violation('final-changed', '%s: %s -> %s'
                               % (u, finals[u], t.state), ctx)
-            if t.state in rps.FINAL:
+            if t.state in FINAL_STATES:
                 finals.setdefault(u, t.state)
                 if t.state == rps.DONE:
                     finals[u] = rps.DONE
@@ -361,7 +362,7 @@ def run_history(case, res):
 
     for u in case['uids']:
         res.see('final_states', tasks[u].state
-                if tasks[u].state in rps.FINAL else 'non-final')
+                if tasks[u].state in FINAL_STATES else 'non-final')
 
 
 # ------------------------------------------------------------------------------
